@@ -6,6 +6,7 @@ import (
 	"fmt"
 	"math/rand"
 	"sync"
+	"sync/atomic"
 	"time"
 
 	"verifharness/rec"
@@ -39,6 +40,7 @@ type chanExec struct {
 	ctxs    []context.Context
 	cancels []context.CancelFunc
 	pcancel context.CancelFunc
+	ready   atomic.Bool // the setup driver has created the Channel
 }
 
 func (x *chanExec) ctx(i int) context.Context {
@@ -198,6 +200,9 @@ func runChanExec(execID int, sci any, e *Env) []rec.Ev {
 	if e.Mode != "c" {
 		lastLen, lastChange := 0, time.Now()
 		e.FreeIdle = func() bool {
+			if !x.ready.Load() {
+				return false
+			}
 			if n := e.R.Len(); n != lastLen {
 				lastLen, lastChange = n, time.Now()
 				return false
@@ -212,6 +217,7 @@ func runChanExec(execID int, sci any, e *Env) []rec.Ev {
 			panic(err)
 		}
 		x.c = c
+		x.ready.Store(true)
 		for _, op := range sc.Setup {
 			x.do(g, op)
 		}
